@@ -9,36 +9,6 @@ From LMBase Require Import Res ListX.
 From LMScore Require Import ScoreModel SimdModel ScoreProofs SimdProofs.
 Import ListNotations.
 
-(* the columns held by the 4 lanes of the accumulators s1..s4 at column offset off *)
-Definition sse2_cols (off : nat) : list (list nat) :=
-  [[off; off + 1; off + 2; off + 3]; [off + 4; off + 5; off + 6; off + 7];
-   [off + 8; off + 9; off + 10; off + 11]; [off + 12; off + 13; off + 14; off + 15]].
-
-Lemma sse2_cols_concat off : concat (sse2_cols off) = seq off 16.
-Proof. unfold sse2_cols. cbn [concat app seq]. repeat (f_equal; try lia). Qed.
-
-Lemma sse2_widen_cols (xs : list nat) :
-  length xs = 16 ->
-  sse2_widen (map N.of_nat xs) =
-  map (fun ks => map (fun k => N.of_nat (nth k xs 0)) ks) (sse2_cols 0).
-Proof.
-  intros H. do 16 (destruct xs as [|? xs]; [discriminate|]). destruct xs; [|discriminate].
-  unfold sse2_widen, unpackhi_epi8, unpacklo_epi8, zero128, sse2_cols.
-  cbn [map repeat firstn skipn interleave as_epi32 nth Nat.add].
-  rewrite !N.mul_0_r, !N.add_0_r. reflexivity.
-Qed.
-
-Lemma sse2_widen_row (xrow : list nat) off :
-  off + 16 <= length xrow ->
-  sse2_widen (map N.of_nat (firstn 16 (skipn off xrow))) =
-  map (fun ks => map (fun k => N.of_nat (nth k xrow 0)) ks) (sse2_cols off).
-Proof.
-  intros H. rewrite sse2_widen_cols by (rewrite firstn_length, skipn_length; lia).
-  unfold sse2_cols. cbn [map Nat.add].
-  rewrite !nth_firstn_lt by lia. rewrite !nth_skipn.
-  rewrite Nat.add_0_r. reflexivity.
-Qed.
-
 Lemma skipn_add {A} a b (l : list A) : skipn (a + b) l = skipn b (skipn a l).
 Proof.
   revert l. induction a as [|a IH]; intros l; simpl; auto.
@@ -60,9 +30,107 @@ Proof.
   rewrite <- !app_assoc. rewrite Nat.add_assoc. reflexivity.
 Qed.
 
+
+Lemma store_at_block {A} off o (r pre blk post : list A) :
+  length pre = off -> o + length r <= length blk ->
+  store_at (off + o) r (pre ++ blk ++ post) = pre ++ store_at o r blk ++ post.
+Proof.
+  intros Hpre Hb. unfold store_at.
+  rewrite firstn_app, Hpre. replace (off + o - off) with o by lia.
+  rewrite (firstn_all2 pre) by lia.
+  rewrite firstn_app. replace (o - length blk) with 0 by lia. rewrite firstn_O, app_nil_r.
+  rewrite skipn_app, Hpre. replace (off + o + length r - off) with (o + length r) by lia.
+  rewrite (skipn_all2 pre) by lia.
+  rewrite skipn_app. replace (o + length r - length blk) with 0 by lia. cbn [skipn app].
+  rewrite <- !app_assoc. reflexivity.
+Qed.
+
+Lemma fold_store_block {A} off (pre post : list A) :
+  forall (l : list (nat * list A)) blk,
+    length pre = off ->
+    (forall o r, In (o, r) l -> o + length r <= length blk) ->
+    fold_left (fun row ro => store_at (off + fst ro) (snd ro) row) l (pre ++ blk ++ post) =
+    pre ++ fold_left (fun row ro => store_at (fst ro) (snd ro) row) l blk ++ post.
+Proof.
+  induction l as [|[o r] l IH]; intros blk Hpre Hl; cbn [fold_left fst snd]; auto.
+  rewrite store_at_block by (auto; apply Hl; left; reflexivity).
+  apply IH; auto.
+  intros o' r' Hin. rewrite store_at_length by (apply Hl; left; reflexivity).
+  apply Hl. right. exact Hin.
+Qed.
+
+Lemma map_add_seq off : forall n s, map (fun k => off + k) (seq s n) = seq (off + s) n.
+Proof.
+  induction n as [|n IH]; intros s; cbn [seq map]; auto.
+  rewrite IH. rewrite Nat.add_succ_r. reflexivity.
+Qed.
+
+Lemma map_nth_seq {A} (x : list A) d : map (fun k => nth k x d) (seq 0 (length x)) = x.
+Proof.
+  apply (nth_ext_len _ _ d).
+  - rewrite map_length, seq_length. reflexivity.
+  - intros i Hi. rewrite map_length, seq_length in Hi.
+    rewrite (map_nth_in _ _ _ 0) by (rewrite seq_length; auto). rewrite seq_nth by auto. reflexivity.
+Qed.
+
+Lemma interleave_map {A B} (f : A -> B) : forall a b,
+  interleave (map f a) (map f b) = map f (interleave a b).
+Proof. induction a as [|x a IH]; intros [|y b]; cbn [map interleave]; auto. rewrite IH. reflexivity. Qed.
+
+(* ---------- interleaving paths as index selections ---------- *)
+
+Lemma zip_path_sel (x : list N) p : forall sel,
+  zip_path zero128 p (map (pick x) sel) = map (pick x) (zip_path (repeat None 16) p sel).
+Proof.
+  assert (Ez : zero128 = map (pick x) (repeat None 16)) by reflexivity.
+  induction p as [|h t IH]; intros sel; cbn [zip_path]; auto.
+  rewrite <- IH. f_equal. rewrite Ez.
+  destruct h; rewrite ?skipn_map, ?firstn_map; apply interleave_map.
+Qed.
+
+Lemma lane4_widen_spec cs kss (x : list N) :
+  lane4_cols cs = Some kss -> length x = 16 ->
+  lane4_widen cs x = map (fun ks => map (fun k => nth k x 0%N) ks) kss.
+Proof.
+  intros Hk Hx. unfold lane4_widen, lane4_cols in *.
+  apply (Forall2_map_eq (fun p ks => epi32_sel (zip_path (repeat None 16) p (map Some (seq 0 16))) = Some ks)).
+  - apply all_some_Forall2. exact Hk.
+  - intros p ks Hp.
+    assert (Ex : x = map (pick x) (map Some (seq 0 16))).
+    { rewrite map_map. cbn [pick]. rewrite <- Hx. symmetry. apply map_nth_seq. }
+    rewrite Ex at 1. rewrite zip_path_sel.
+    eapply epi32_sel_spec; eauto.
+Qed.
+
+(* what the reflection check establishes *)
+Lemma lane4_layout_facts cs :
+  lane4_layout_ok cs = true ->
+  exists kss,
+    lane4_cols cs = Some kss /\
+    (forall ks k, In ks kss -> In k ks -> k < 16) /\
+    (forall ks, In ks kss -> length ks = 4) /\
+    (forall o, In o (l4_store cs) -> o + 4 <= 16) /\
+    length kss = length (l4_store cs) /\
+    lane4_final_cols cs kss = seq 0 16.
+Proof.
+  unfold lane4_layout_ok. destruct (lane4_cols cs) as [kss|]; [|discriminate].
+  intros H. exists kss. split; [reflexivity|].
+  apply andb_true_iff in H. destruct H as [H H4]. apply andb_true_iff in H. destruct H as [H H3].
+  apply andb_true_iff in H. destruct H as [H1 H2].
+  rewrite forallb_forall in H1. rewrite forallb_forall in H2.
+  repeat split.
+  - intros ks k Hks Hk. specialize (H1 ks Hks). apply andb_true_iff in H1. destruct H1 as [_ H1].
+    rewrite forallb_forall in H1. apply Nat.ltb_lt. apply H1. exact Hk.
+  - intros ks Hks. specialize (H1 ks Hks). apply andb_true_iff in H1. destruct H1 as [H1 _].
+    apply Nat.eqb_eq. exact H1.
+  - intros o Ho. apply Nat.leb_le. apply H2. exact Ho.
+  - apply Nat.eqb_eq. exact H3.
+  - apply list_nat_eqb_eq. exact H4.
+Qed.
+
 (* ---------- the kernel ---------- *)
 
-Section Sse2Proofs.
+Section Lane4Proofs.
   Context {T : Type}.
   Variable add : T -> T -> T.
   Variable zero : T.
@@ -74,6 +142,38 @@ Section Sse2Proofs.
   Hypothesis P_zero : P zero.
   Hypothesis P_add : forall x y, P x -> P (add x y).
   Hypothesis add_zero : forall x, P x -> add x zero = x.
+
+  (* the constants of the kernel and the facts established by [lane4_layout_ok] *)
+  Variable cs : lane4_consts.
+  Variable kss : list (list nat).
+  Hypothesis Hkss : lane4_cols cs = Some kss.
+  Hypothesis Hk16 : forall ks k, In ks kss -> In k ks -> k < 16.
+  Hypothesis Hk4 : forall ks, In ks kss -> length ks = 4.
+  Hypothesis Hst16 : forall o, In o (l4_store cs) -> o + 4 <= 16.
+  Hypothesis Hlen : length kss = length (l4_store cs).
+  Hypothesis Hfinal : lane4_final_cols cs kss = seq 0 16.
+
+  (* the columns held by the lanes of the accumulators at column offset off *)
+  Definition acols (off : nat) : list (list nat) := map (map (fun k => off + k)) kss.
+
+  Lemma acols_range off ks c : In ks (acols off) -> In c ks -> off <= c < off + 16.
+  Proof.
+    unfold acols. intros Hks Hc. apply in_map_iff in Hks. destruct Hks as [ks0 [<- Hks0]].
+    apply in_map_iff in Hc. destruct Hc as [k [<- Hk]]. pose proof (Hk16 ks0 k Hks0 Hk). lia.
+  Qed.
+
+  Lemma lane4_widen_row (xrow : list nat) off :
+    off + 16 <= length xrow ->
+    lane4_widen cs (map N.of_nat (firstn 16 (skipn off xrow))) =
+    map (fun ks => map (fun c => N.of_nat (nth c xrow 0)) ks) (acols off).
+  Proof.
+    intros H. rewrite (lane4_widen_spec cs kss) by (auto; rewrite map_length, firstn_length, skipn_length; lia).
+    unfold acols. rewrite map_map. apply map_ext_in. intros ks Hks.
+    rewrite map_map. apply map_ext_in. intros k Hk.
+    pose proof (Hk16 ks k Hks Hk) as Hk'.
+    change 0%N with (N.of_nat 0). rewrite map_nth.
+    rewrite nth_firstn_lt by lia. rewrite nth_skipn. reflexivity.
+  Qed.
 
   (* one lane of `for k in 0..K { s = s + (lut_k & (x == k)) }` *)
   Fixpoint lane_fold (k : nat) (cells : list T) (s : nat) (a : T) : T :=
@@ -117,31 +217,29 @@ Section Sse2Proofs.
       replace (s - k) with (S (s - S k)) by lia. reflexivity.
   Qed.
 
-  Lemma sse2_inner_ok off :
+  Lemma lane4_inner_ok off :
     off + 16 <= C ->
     forall pr sr g,
       pssm_wf K pr -> length pr <= length sr ->
       (forall j, j < length pr -> length (nth j sr []) = C /\ Forall (fun x => x < K) (nth j sr [])) ->
       (forall c, P (g c)) ->
-      sse2_inner add zero off pr sr (map (map g) (sse2_cols off)) =
+      lane4_inner add zero cs off pr sr (map (map g) (acols off)) =
       Ok (map (map (fun c => fold_left add (terms_from zero 0 pr (fun j => nth c (nth j sr []) Nw)) (g c)))
-              (sse2_cols off)).
+              (acols off)).
   Proof.
     intros Hoff. induction pr as [|prow rest IH]; intros sr g Hp Hl Hsr Hg.
     - reflexivity.
     - pose proof (Forall_inv Hp) as Hk. pose proof (Forall_inv_tail Hp) as Hrest. cbv beta in Hk.
       destruct sr as [|xrow sr']; [simpl in Hl; lia|].
-      cbn [sse2_inner].
+      cbn [lane4_inner].
       destruct (Hsr 0 ltac:(simpl; lia)) as [HxC HxK]. cbn [nth] in HxC, HxK.
-      rewrite sse2_widen_row by lia.
-      rewrite (sse2_symbols_lanes prow 0 (sse2_cols off) (fun c => nth c xrow 0) g).
+      rewrite lane4_widen_row by lia.
+      rewrite (sse2_symbols_lanes prow 0 (acols off) (fun c => nth c xrow 0) g).
       set (g' := fun c => add (g c) (nth (nth c xrow Nw) prow zero)).
-      assert (E : map (map (fun c => lane_fold 0 prow (nth c xrow 0) (g c))) (sse2_cols off) =
-                  map (map g') (sse2_cols off)).
+      assert (E : map (map (fun c => lane_fold 0 prow (nth c xrow 0) (g c))) (acols off) =
+                  map (map g') (acols off)).
       { apply map_ext_in. intros ks Hks. apply map_ext_in. intros c Hc.
-        assert (Hc16 : off <= c < off + 16).
-        { assert (Hin : In c (concat (sse2_cols off))) by (apply in_concat; exists ks; auto).
-          rewrite sse2_cols_concat in Hin. apply in_seq in Hin. lia. }
+        pose proof (acols_range off ks c Hks Hc) as Hc16.
         assert (Hsym : nth c xrow 0 < K).
         { rewrite Forall_forall in HxK. apply HxK. apply nth_In. lia. }
         rewrite lane_fold_ge by (auto; lia). rewrite Nat.sub_0_r. unfold g'.
@@ -154,31 +252,75 @@ Section Sse2Proofs.
       + intros c. unfold g'. apply P_add. auto.
   Qed.
 
-  Lemma sse2_store_ok off (G : nat -> T) (old : list T) :
+  Lemma lane4_store_ok off (G : nat -> T) (old : list T) :
     off + 16 <= length old ->
-    sse2_store off (map (map G) (sse2_cols off)) old = store_at off (map G (seq off 16)) old.
+    lane4_store cs off (map (map G) (acols off)) old = store_at off (map G (seq off 16)) old.
   Proof.
-    intros H. rewrite <- sse2_cols_concat. rewrite concat_map.
-    unfold sse2_store, sse2_cols. cbn [map combine fold_left fst snd concat].
-    rewrite (store_at_twice (off + 0) (off + 4)) by (cbn [length]; lia).
-    rewrite (store_at_twice (off + 0) (off + 8)) by (cbn [length app]; lia).
-    rewrite (store_at_twice (off + 0) (off + 12)) by (cbn [length app]; lia).
-    rewrite Nat.add_0_r, app_nil_r. cbn [app]. reflexivity.
+    intros Hold.
+    set (pre := firstn off old). set (blk := firstn 16 (skipn off old)). set (post := skipn (off + 16) old).
+    assert (Eold : old = pre ++ blk ++ post).
+    { unfold pre, blk, post. rewrite (skipn_add off 16). rewrite firstn_skipn. rewrite firstn_skipn. reflexivity. }
+    assert (Hpre : length pre = off) by (unfold pre; rewrite firstn_length; lia).
+    assert (Hblk : length blk = 16) by (unfold blk; rewrite firstn_length, skipn_length; lia).
+    set (Goff := fun k => G (off + k)).
+    set (G' := fun k => if k <? 16 then Goff k else nth (k - 16) blk zero).
+    assert (Hacc : map (map G) (acols off) = map (map G') kss).
+    { unfold acols. rewrite map_map. apply map_ext_in. intros ks Hks.
+      rewrite map_map. apply map_ext_in. intros k Hk. unfold G', Goff.
+      replace (k <? 16) with true; auto. symmetry. apply Nat.ltb_lt. eapply Hk16; eauto. }
+    assert (Hrow : blk = map G' (seq 16 16)).
+    { apply (nth_ext_len _ _ zero).
+      - rewrite map_length, seq_length. auto.
+      - intros i Hi. rewrite (map_nth_in _ _ _ 0) by (rewrite seq_length; lia).
+        rewrite seq_nth by lia. unfold G'.
+        replace (16 + i <? 16) with false by (symmetry; apply Nat.ltb_ge; lia).
+        f_equal. lia. }
+    unfold lane4_store. rewrite Eold at 1.
+    rewrite (fold_store_block off pre post); auto.
+    - rewrite Hacc. rewrite Hrow at 1. rewrite combine_map_r. rewrite fold_store_map.
+      fold (lane4_final_cols cs kss). rewrite Hfinal.
+      unfold store_at. rewrite map_length, seq_length. fold pre. fold post.
+      f_equal. f_equal.
+      replace (seq off 16) with (map (fun k => off + k) (seq 0 16))
+        by (rewrite map_add_seq, Nat.add_0_r; reflexivity).
+      rewrite map_map.
+      apply map_ext_in. intros k Hk. apply in_seq in Hk. unfold G', Goff.
+      replace (k <? 16) with true; auto. symmetry. apply Nat.ltb_lt. lia.
+    - intros o r Hin. rewrite Hblk.
+      pose proof (in_combine_l _ _ _ _ Hin) as Ho. pose proof (in_combine_r _ _ _ _ Hin) as Hr.
+      apply in_map_iff in Hr. destruct Hr as [ks0 [<- Hks0]].
+      unfold acols in Hks0. apply in_map_iff in Hks0. destruct Hks0 as [ks1 [<- Hks1]].
+      rewrite !map_length. rewrite (Hk4 ks1 Hks1). apply Hst16. exact Ho.
   Qed.
 
-  Lemma sse2_row_ok off pssm m i old :
+  Lemma paths_length : length (l4_paths cs) = length kss.
+  Proof.
+    unfold lane4_cols in Hkss. pose proof (all_some_Forall2 _ _ _ Hkss) as H.
+    clear -H. induction H; simpl; auto.
+  Qed.
+
+  Lemma lane4_acc0 off :
+    repeat (repeat zero 4) (length (l4_paths cs)) = map (map (fun _ : nat => zero)) (acols off).
+  Proof.
+    rewrite paths_length. unfold acols. rewrite map_map. symmetry.
+    rewrite (map_ext_in _ (fun _ => repeat zero 4)).
+    - apply map_const_repeat. auto.
+    - intros ks Hks. rewrite map_map. rewrite <- (Hk4 ks Hks). apply map_const_repeat. auto.
+  Qed.
+
+  Lemma lane4_row_ok off pssm m i old :
     off + 16 <= C ->
     mat_wf C K m -> pssm_wf K pssm -> i + length pssm <= length m -> i < length m ->
     length old = C ->
-    sse2_row add zero off pssm m i old =
+    lane4_row add zero cs off pssm m i old =
     Ok (store_at off (map (cell_of add zero K pssm m i) (seq off 16)) old).
   Proof.
-    intros Hoff Hm Hp Hi Hi' Hold. unfold sse2_row.
+    intros Hoff Hm Hp Hi Hi' Hold. unfold lane4_row.
     replace (length m <=? i) with false by (symmetry; apply Nat.leb_gt; lia).
-    change (repeat (repeat zero 4) 4) with (map (map (fun _ : nat => zero)) (sse2_cols off)).
-    rewrite sse2_inner_ok; auto.
+    rewrite (lane4_acc0 off).
+    rewrite lane4_inner_ok; auto.
     - cbn [rbind]. f_equal.
-      rewrite (sse2_store_ok off (fun c => fold_left add
+      rewrite (lane4_store_ok off (fun c => fold_left add
                  (terms_from zero 0 pssm (fun j => nth c (nth j (skipn i m) []) Nw)) zero)) by lia.
       f_equal. apply map_ext. intros c. unfold cell_of. f_equal.
       apply terms_from_shift. intros j Hj. rewrite nth_skipn. reflexivity.
@@ -192,15 +334,15 @@ Section Sse2Proofs.
     map (fun j => map (cell_of add zero K pssm m (nth j idx 0)) (seq 0 k) ++ skipn k (nth j buf0 []))
         (seq 0 (length idx)).
 
-  Lemma sse2_block_ok pssm m idx buf0 off :
+  Lemma lane4_block_ok pssm m idx buf0 off :
     off + 16 <= C -> mat_wf C K m -> pssm_wf K pssm ->
     length idx = length buf0 ->
     (forall j, j < length idx -> nth j idx 0 + length pssm <= length m /\ nth j idx 0 < length m) ->
     (forall j, j < length buf0 -> length (nth j buf0 []) = C) ->
-    rows_update (sse2_row add zero off pssm m) 0 idx (sse2_partial pssm m idx buf0 off) =
+    rows_update (lane4_row add zero cs off pssm m) 0 idx (sse2_partial pssm m idx buf0 off) =
     Ok (sse2_partial pssm m idx buf0 (off + 16)).
   Proof.
-    intros Hoff Hm Hp Hlen Hidx Hbuf.
+    intros Hoff Hm Hp Hlenb Hidx Hbuf.
     assert (Hpl : forall k, length (sse2_partial pssm m idx buf0 k) = length idx).
     { intros k. unfold sse2_partial. rewrite map_length, seq_length. reflexivity. }
     assert (Hpn : forall k j, j < length idx ->
@@ -209,12 +351,12 @@ Section Sse2Proofs.
     { intros k j Hj. unfold sse2_partial.
       rewrite (map_nth_in _ _ _ 0) by (rewrite seq_length; auto).
       rewrite seq_nth by auto. reflexivity. }
-    destruct (rows_update_ok (sse2_row add zero off pssm m)
+    destruct (rows_update_ok (lane4_row add zero cs off pssm m)
                 (fun i old => store_at off (map (cell_of add zero K pssm m i) (seq off 16)) old)
                 idx 0 (sse2_partial pssm m idx buf0 off)) as [res [Hres [Hrl [_ Hin]]]].
     - rewrite Hpl. lia.
     - intros j Hj. cbn [Nat.add]. destruct (Hidx j Hj) as [H1 H2].
-      apply sse2_row_ok; auto.
+      apply lane4_row_ok; auto.
       rewrite Hpn by auto. rewrite app_length, map_length, seq_length, skipn_length.
       rewrite Hbuf by lia. lia.
     - rewrite Hres. f_equal. apply (nth_ext_len _ _ []).
@@ -229,33 +371,34 @@ Section Sse2Proofs.
         rewrite app_assoc. rewrite <- map_app. rewrite <- seq_app. reflexivity.
   Qed.
 
-  Lemma sse2_blocks_ok pssm m idx buf0 :
+  Lemma lane4_blocks_ok pssm m idx buf0 :
     mat_wf C K m -> pssm_wf K pssm ->
     length idx = length buf0 ->
     (forall j, j < length idx -> nth j idx 0 + length pssm <= length m /\ nth j idx 0 < length m) ->
     (forall j, j < length buf0 -> length (nth j buf0 []) = C) ->
     forall n i0, (i0 + n) * 16 <= C ->
-      foldM (fun buf' off => rows_update (sse2_row add zero off pssm m) 0 idx buf')
+      foldM (fun buf' off => rows_update (lane4_row add zero cs off pssm m) 0 idx buf')
             (map (fun i => i * 16) (seq i0 n)) (sse2_partial pssm m idx buf0 (i0 * 16)) =
       Ok (sse2_partial pssm m idx buf0 ((i0 + n) * 16)).
   Proof.
-    intros Hm Hp Hlen Hidx Hbuf. induction n as [|n IH]; intros i0 Hn.
+    intros Hm Hp Hlenb Hidx Hbuf. induction n as [|n IH]; intros i0 Hn.
     - rewrite Nat.add_0_r. reflexivity.
-    - cbn [seq map foldM]. rewrite sse2_block_ok by (auto; lia). cbn [rbind].
+    - cbn [seq map foldM]. rewrite lane4_block_ok by (auto; lia). cbn [rbind].
       replace (i0 * 16 + 16) with (S i0 * 16) by lia.
       rewrite IH by lia. f_equal. f_equal. lia.
   Qed.
 
-  Lemma sse2_kernel_ok pssm q a b buf :
+  (* the kernel fills the buffer with the generic cells whenever every row it reads exists *)
+  Lemma lane4_kernel_ok pssm q a b buf :
     C mod 16 = 0 ->
     mat_wf C K (sq_mat q) -> pssm_wf K pssm -> 1 <= length pssm ->
     a < b -> b + length pssm - 1 <= length (sq_mat q) ->
     length buf = b - a -> (forall r, r < length buf -> length (nth r buf []) = C) ->
-    sse2_kernel add zero C pssm q a b buf =
+    lane4_kernel add zero cs C pssm q a b buf =
     Ok (map (fun r => map (cell_of add zero K pssm (sq_mat q) r) (seq 0 C)) (seq a (b - a))).
   Proof.
-    intros HC Hm Hp HM Hab Hb Hlen Hrows. unfold sse2_kernel.
-    destruct buf as [|b0 buf'] eqn:Ebuf; [simpl in Hlen; lia|]. rewrite <- Ebuf in *. clear Ebuf b0 buf'.
+    intros HC Hm Hp HM Hab Hb Hlenb Hrows. unfold lane4_kernel.
+    destruct buf as [|b0 buf'] eqn:Ebuf; [simpl in Hlenb; lia|]. rewrite <- Ebuf in *. clear Ebuf b0 buf'.
     destruct pssm as [|p0 pssm'] eqn:Ep; [simpl in HM; lia|]. rewrite <- Ep in *. clear Ep p0 pssm'.
     assert (HC16 : C / 16 * 16 = C).
     { pose proof (Nat.div_mod C 16 ltac:(lia)) as E. lia. }
@@ -264,13 +407,13 @@ Section Sse2Proofs.
                nth j (seq a (b - a)) 0 < length (sq_mat q)).
     { intros j Hj. rewrite seq_length in Hj. rewrite seq_nth by auto. lia. }
     assert (E0 : buf = sse2_partial pssm (sq_mat q) (seq a (b - a)) buf (0 * 16)).
-    { unfold sse2_partial. cbn [Nat.mul seq map app skipn]. rewrite seq_length, <- Hlen.
+    { unfold sse2_partial. cbn [Nat.mul seq map app skipn]. rewrite seq_length, <- Hlenb.
       apply (nth_ext_len _ _ []).
       - rewrite map_length, seq_length. reflexivity.
       - intros j Hj. rewrite (map_nth_in _ _ _ 0) by (rewrite seq_length; auto).
         rewrite seq_nth by auto. reflexivity. }
     rewrite E0 at 1.
-    rewrite (sse2_blocks_ok pssm (sq_mat q) (seq a (b - a)) buf Hm Hp) ; auto.
+    rewrite (lane4_blocks_ok pssm (sq_mat q) (seq a (b - a)) buf Hm Hp) ; auto.
     - f_equal. cbn [Nat.add]. rewrite HC16. unfold sse2_partial. rewrite seq_length.
       apply (nth_ext_len _ _ []).
       + rewrite !map_length, !seq_length. reflexivity.
@@ -282,19 +425,63 @@ Section Sse2Proofs.
     - rewrite seq_length. auto.
     - cbn [Nat.add]. lia.
   Qed.
+End Lane4Proofs.
 
-  Theorem sse2_equiv pssm q a b old :
+(* ---------- SSE2 and NEON wrappers ---------- *)
+
+Section Lane4Eq.
+  Context {T : Type}.
+  Variable add : T -> T -> T.
+  Variable zero : T.
+  Variable C K : nat.
+  Variable P : T -> Prop.
+  Hypothesis P_zero : P zero.
+  Hypothesis P_add : forall x y, P x -> P (add x y).
+  Hypothesis add_zero : forall x, P x -> add x zero = x.
+
+  Theorem sse2_equiv cs pssm q a b old :
+    lane4_layout_ok cs = true ->
     0 < C -> C mod 16 = 0 ->
     mat_wf C K (sq_mat q) -> pssm_wf K pssm -> sc_wf C old ->
     1 <= length pssm -> length pssm - 1 <= sq_wrap q ->
-    res_equiv (sse2_rows_into add zero C pssm q a b old)
+    res_equiv (sse2_rows_into add zero cs C pssm q a b old)
               (generic_rows_into add zero C pssm q a b old).
   Proof.
-    intros HC HC16 Hm Hp Hw HM Hwrap.
+    intros Hlay HC HC16 Hm Hp Hw HM Hwrap.
+    destruct (lane4_layout_facts cs Hlay) as [kss [H1 [H2 [H3 [H4 [H5 H6]]]]]].
     unfold sse2_rows_into. apply (simd_guard_equiv add zero C K); auto.
-    intros Hab Hb HL buf Hlen Hrows. apply sse2_kernel_ok; auto.
+    intros Hab Hb HL buf Hlenb Hrows.
+    apply (lane4_kernel_ok add zero C K P P_zero P_add add_zero cs kss); auto.
   Qed.
-End Sse2Proofs.
+
+  (* the NEON wrapper has no row-range assertion: it agrees with the generic pipeline on every
+     range whose rows (with the M - 1 rows below them) exist in the sequence matrix ... *)
+  Theorem neon_equiv_in_range cs pssm q a b old :
+    lane4_layout_ok cs = true ->
+    0 < C -> C mod 16 = 0 ->
+    mat_wf C K (sq_mat q) -> pssm_wf K pssm -> sc_wf C old ->
+    1 <= length pssm -> length pssm - 1 <= sq_wrap q ->
+    b + length pssm - 1 <= length (sq_mat q) \/ sq_len q < length pssm \/ b <= a ->
+    res_equiv (neon_rows_into add zero cs C pssm q a b old)
+              (generic_rows_into add zero C pssm q a b old).
+  Proof.
+    intros Hlay HC HC16 Hm Hp Hw HM Hwrap Hrange.
+    destruct (lane4_layout_facts cs Hlay) as [kss [H1 [H2 [H3 [H4 [H5 H6]]]]]].
+    unfold neon_rows_into, neon_guard.
+    replace (length pssm =? 0) with false by (symmetry; apply Nat.eqb_neq; lia).
+    replace (sq_wrap q <? length pssm - 1) with false by (symmetry; apply Nat.ltb_ge; lia).
+    destruct ((sq_len q <? length pssm) || negb (a <? b)) eqn:E.
+    - unfold generic_rows_into. rewrite E. simpl. reflexivity.
+    - apply orb_false_iff in E. destruct E as [E1 E2].
+      apply Nat.ltb_ge in E1. apply negb_false_iff in E2. apply Nat.ltb_lt in E2.
+      destruct Hrange as [Hb|[Hc|Hc]]; try lia.
+      rewrite (lane4_kernel_ok add zero C K P P_zero P_add add_zero cs kss); auto.
+      + rewrite (generic_rows_into_ok add zero C K); auto. simpl. reflexivity.
+      + unfold sc_resize. cbn [sc_mat]. apply m_resize_length.
+      + intros r Hr. unfold sc_resize in Hr. cbn [sc_mat] in Hr. rewrite m_resize_length in Hr.
+        apply (sc_resize_rows zero C); auto.
+  Qed.
+End Lane4Eq.
 
 (* ---------- the dispatcher ---------- *)
 
@@ -340,14 +527,14 @@ Section DispatchProofs.
   Hypothesis add_zero : forall x, P x -> add x zero = x.
 
   (* whatever kernel the table selects for an arm, the result is that of the generic kernel *)
-  Theorem dispatch_equiv (table : arm -> kernel_id) csp csg pssm pads ar q a b old :
-    avx2_layout_ok csp = true -> avx2_layout_ok csg = true ->
+  Theorem dispatch_equiv (table : arm -> kernel_id) csp csg cs2 pssm pads ar q a b old :
+    avx2_layout_ok csp = true -> avx2_layout_ok csg = true -> lane4_layout_ok cs2 = true ->
     mat_wf 32 K (sq_mat q) -> pssm_wf K pssm -> sc_wf 32 old ->
     1 <= length pssm -> length pssm - 1 <= sq_wrap q ->
-    res_equiv (dispatch_rows_into add zero table csp csg K pssm pads ar q a b old)
+    res_equiv (dispatch_rows_into add zero table csp csg cs2 K pssm pads ar q a b old)
               (generic_rows_into add zero 32 pssm q a b old).
   Proof.
-    intros Hcp Hcg Hm Hp Hw HM Hwrap. unfold dispatch_rows_into.
+    intros Hcp Hcg Hc2 Hm Hp Hw HM Hwrap. unfold dispatch_rows_into.
     destruct (table ar).
     - apply res_equiv_refl. apply generic_rows_into_ok_or_panic.
     - apply (sse2_equiv add zero 32 K P); auto. lia.
